@@ -372,8 +372,9 @@ func (l *vC07Lab) drainAsked() map[string][]string {
 
 // vC07Pipe is one fresh resolver behind one fresh cache.
 type vC07Pipe struct {
-	h  *DNSHandler
-	cm *cachemw.Cache
+	h   *DNSHandler
+	cm  *cachemw.Cache
+	rec *vC07RecQueryer
 }
 
 type vC07ChainQueryer struct{ handlers []middleware.Handler }
@@ -387,6 +388,45 @@ func (q *vC07ChainQueryer) Query(ctx context.Context, req *dns.Msg) (*dns.Msg, e
 		return nil, middleware.ErrNoResponse
 	}
 	return w.Msg(), nil
+}
+
+// vC07RecQueryer wraps the cache's Queryer and records every sub-query with what it returned
+type vC07SubRec struct {
+	name   string
+	qtype  uint16
+	err    bool
+	rcode  int
+	answer []dns.RR
+	hasNs  bool
+}
+
+type vC07RecQueryer struct {
+	inner middleware.Queryer
+	mu    sync.Mutex
+	recs  []vC07SubRec
+}
+
+func (q *vC07RecQueryer) Query(ctx context.Context, req *dns.Msg) (*dns.Msg, error) {
+	name, qtype := req.Question[0].Name, req.Question[0].Qtype
+	resp, err := q.inner.Query(ctx, req)
+	rec := vC07SubRec{name: name, qtype: qtype, err: err != nil || resp == nil}
+	if !rec.err {
+		rec.rcode = resp.Rcode
+		rec.answer = append([]dns.RR{}, resp.Answer...)
+		rec.hasNs = len(resp.Ns) > 0
+	}
+	q.mu.Lock()
+	q.recs = append(q.recs, rec)
+	q.mu.Unlock()
+	return resp, err
+}
+
+func (q *vC07RecQueryer) take() []vC07SubRec {
+	q.mu.Lock()
+	defer q.mu.Unlock()
+	r := q.recs
+	q.recs = nil
+	return r
 }
 
 var vC07QuietOnce sync.Once
@@ -425,11 +465,12 @@ func (l *vC07Lab) newPipe(minLevel int, scratch string) *vC07Pipe {
 	h.resolver.resolveTarget.Store(&mapper)
 	cm := cachemw.New(cfg)
 	sub := &vC07ChainQueryer{handlers: []middleware.Handler{cm, h}}
-	cm.SetQueryer(sub)
+	rec := &vC07RecQueryer{inner: sub}
+	cm.SetQueryer(rec)
 	cm.SetPrefetchQueryer(sub)
 	var qr middleware.Queryer = sub
 	h.resolver.queryer.Store(&qr)
-	return &vC07Pipe{h: h, cm: cm}
+	return &vC07Pipe{h: h, cm: cm, rec: rec}
 }
 
 func (p *vC07Pipe) close() {
